@@ -218,6 +218,8 @@ def finish(run, write_evidence=True):
                  st["twins"], len(st["inapplicable"])))
         for m in st["misses"]:
             print("   SELFTEST-MISS property=%s %s" % (run.pid, m))
+        for m in st.get("limits", []):
+            print("   SELFTEST-LIMIT property=%s %s" % (run.pid, m))
     replay = None
     if new:
         outdir = os.path.join(VERIF, "out", "violations")
